@@ -27,6 +27,7 @@ Require Import Cirbo.Proofs.BuilderFacts Cirbo.Proofs.ArithFacts Cirbo.Proofs.Ar
   Cirbo.Proofs.ArithSumStructC Cirbo.Proofs.ArithSumFinal.
 Require Import Cirbo.Proofs.TotalFacts Cirbo.Proofs.ArithSumMinted Cirbo.Proofs.ArithSumResultsQ
   Cirbo.Proofs.ArithSumTotalFinal.
+Require Import Cirbo.Model.PyPrims Cirbo.Generated.ArithGen07 Cirbo.Proofs.ArithGen07H.
 Require Import Coq.Logic.FinFun.
 Open Scope Z_scope.
 
@@ -448,6 +449,45 @@ Theorem C07_generate_sum_weighted_bits_naive_total_exact : forall fresh, Injecti
       forall asg bs, assigns asg ins bs ->
         exists rv, bvals c asg (outputs c) rv /\ wvalue (map fst res) rv = wvalue weights bs.
 Proof. exact generate_sum_weighted_bits_naive_total_exact. Qed.
+
+(* ---- the second tie to the source: the ALGORITHMS regenerated from summation.py (translator T18) ------------ *)
+(* Generated/ArithGen07.v is written by translator/t18_sum_gen.py from the statements of
+   cirbo/synthesis/generation/arithmetics/summation.py on every check; each gen_f runs EXACTLY like the hand model the
+   theorems above are about (same result, same final state, same error, same OutOfFuel) for all arguments. Python
+   ints are Z in the generated text: the shift and the weights are embedded from nat / N (non-negative values; a
+   negative shift makes the Python slices count from the end: Proofs/ArithGen07H.with_shift_negative_differs).
+   The generate_* wrappers are compared on the input labels the source builds (str(0) .. str(n-1)). *)
+Theorem C07_generators_regenerated :
+  (forall a b be fresh s,
+     run fresh (gen_add_sum_two_numbers a b be) s = run fresh (add_sum_two_numbers a b be) s) /\
+  (forall shift a b be fresh s,
+     run fresh (gen_add_sum_two_numbers_with_shift (Z.of_nat shift) a b be) s
+     = run fresh (add_sum_two_numbers_with_shift shift a b be) s) /\
+  (forall xs be fresh s,
+     run fresh (gen_add_sum_n_bits_easy xs be) s = run fresh (add_sum_n_bits_easy be xs) s) /\
+  (forall xs be basis fresh s,
+     run fresh (gen_add_sum_pow2_m1 xs be basis) s = run fresh (add_sum_pow2_m1 basis be xs) s) /\
+  (forall xs basis be fresh s,
+     run fresh (gen_add_sum_n_bits xs basis be) s = run fresh (add_sum_n_bits basis be xs) s) /\
+  (forall xs fresh s,
+     run fresh (gen__add_sum_n_bits xs) s = run fresh (add_sum_n_bits_xaig xs) s) /\
+  (forall xs fresh s,
+     run fresh (gen__add_sum_n_bits_aig xs) s = run fresh (add_sum_n_bits_aig xs) s) /\
+  (forall inp basis fresh s,
+     run fresh (gen_add_sum_n_weighted_bits_naive (map (fun p => (Z.of_N (fst p), snd p)) inp) basis) s
+     = run fresh (bdo r <- add_sum_n_weighted_bits_naive basis inp; Ret (map (fun p => (Z.of_N (fst p), snd p)) r)) s) /\
+  (forall inp basis fresh s,
+     run fresh (gen_add_sum_n_weighted_bits (map (fun p => (Z.of_N (fst p), snd p)) inp) basis) s
+     = run fresh (bdo r <- add_sum_n_weighted_bits basis inp; Ret (map (fun p => (Z.of_N (fst p), snd p)) r)) s) /\
+  (forall fresh k0 n basis be,
+     gen_generate_sum_n_bits fresh k0 n basis be = generate_sum_n_bits fresh k0 (py_bare_labels n) basis be) /\
+  (forall fresh k0 ws basis,
+     gen_generate_sum_weighted_bits_efficient fresh k0 (map Z.of_N ws) basis
+     = generate_sum_weighted_bits_efficient fresh k0 (py_bare_labels (Z.of_nat (length ws))) ws basis) /\
+  (forall fresh k0 ws basis,
+     gen_generate_sum_weighted_bits_naive fresh k0 (map Z.of_N ws) basis
+     = generate_sum_weighted_bits_naive fresh k0 (py_bare_labels (Z.of_nat (length ws))) ws basis).
+Proof. exact sum_generators_regenerated. Qed.
 
 (* ---- non-vacuity: the hypotheses are satisfiable ------------------------------------------------------- *)
 Definition demo_host : circuit :=
